@@ -7,7 +7,8 @@
  *   keyword  :name is resolved through the grammar scopes (default grammar last), then compiled as above
  *   tuple    (special args...) / (n patt): dispatch; the rule the special emits starts at n0, which is returned
  *   struct   {:main ...}: new scope holding the KEYWORD keys only, main rule compiled in it, its index returned
- *   table    @{:main ...}: same through a clone of the table
+ *   table    @{:main ...}: same - only the keyword keys of the user's table are copied, the table itself is not cached
+ *            (/repo 4f105a7; a clone with all keys, or a cache entry under the entry count, violates INV)
  *
  * RULE CACHE INVARIANT (INV) - needed by `cache`, must be maintained by everything that writes a grammar table:
  *   every non-keyword key of every table in the scope chain is bound to the number of an instruction start that
@@ -31,6 +32,7 @@ static int g_lookups; static JanetTable *g_lk_tab; static Janet g_lk_key; static
 static int g_puts; static JanetTable *g_put_tab[3]; static Janet g_put_key[3], g_put_val[3];
 static int g_user_nonkw;                                  /* the user's table has a key that is not a keyword */
 static int g_new_is_clone;
+static JanetKV g_user_kv[2];                              /* slots of the user's grammar table */
 static Janet g_main_val; static int g_main_asked;
 static JanetTable *g_scope;                               /* table the last keyword was found in */
 static Janet g_resolved;
@@ -254,6 +256,9 @@ static void c1_case(int32_t n0c, int32_t capc) {
   kv[0].key.type = nd_int(); kv[1].key.type = nd_int();
   peg.type = JANET_STRUCT; peg.as.pointer = (void *) kv;
 #else
+  T_USER.capacity = 2; T_USER.count = nd_i32(); T_USER.deleted = 0; T_USER.data = g_user_kv;
+  g_user_kv[0].key.type = nd_int(); g_user_kv[1].key.type = nd_int();
+  g_user_nonkw = (g_user_kv[0].key.type != JANET_KEYWORD && g_user_kv[0].key.type != JANET_NIL) || (g_user_kv[1].key.type != JANET_KEYWORD && g_user_kv[1].key.type != JANET_NIL);
   peg.type = JANET_TABLE; peg.as.pointer = (void *) &T_USER;
 #endif
   uint32_t ret = peg_compile1__entry(&B, peg);
@@ -268,7 +273,9 @@ static void c1_case(int32_t n0c, int32_t capc) {
   __CPROVER_assert(g_puts <= 2, "C12 grammar: at most one scope entry per struct slot, the struct itself is not cached");
   REACH("peg_compile1 returns (struct grammar)");
 #else
+  __CPROVER_assert(g_puts <= 2, "C12 grammar: at most one scope entry per table slot, the table itself is not cached (it compiles to the rule of :main, not to the entry count)");
   REACH("peg_compile1 returns (table grammar)");
+  if (g_user_nonkw) REACH("peg_compile1 returns (table grammar with a non-keyword key: skipped)");
 #endif
 #else
 #error "no C1 case"
